@@ -33,7 +33,9 @@ class Contract(object):
         self.symbol_is_regexp = symbol_is_regexp
         self.hints = hints or {}
         self.asserts = list(asserts)
-        self.pre_return_asserts = list(pre_return_asserts)   # proved (then assumed) before the return expression is evaluated
+        # proved (then assumed) before the return expression is evaluated; a list applies to every return statement, a dict
+        # {'last': [...], n: [...]} to the last / the n-th return statement in source order
+        self.pre_return_asserts = dict(pre_return_asserts) if isinstance(pre_return_asserts, dict) else list(pre_return_asserts)
         self.verify = verify      # False: contract assumed at call sites, the function itself is only checked by its bounded stand-in
         self.is_method = '.' in qualname
         self.note = note
